@@ -201,8 +201,11 @@ def run(ctx):
     oracle_fail, build_diff, setup_err = [], [], 0
     seen_cls = set()
     reduces = {}
+    cerrs = rs.case_errors(res)
     for i, c in enumerate(cases):
         a, p = res["compiled"][i], res["pure"][i]
+        if rs.has_error(res, i):
+            continue
         if "setup_error" in a or "setup_error" in p:
             setup_err += 1
             if ("setup_error" in a) != ("setup_error" in p):
